@@ -23,6 +23,7 @@ func init() {
 				}
 			}
 			m.RunNilObj(s, "R-NILOBJ", sel)
+			m.RunTypedNil(s, "R-NILOBJ", sel)
 			m.RunSharedWrites(s, "R-SHARED", r.Render, "race")
 			s.RequireMin("R-KINDS", 24, "14 Go types, nil, 4 kinds, fall-through, map keys, setters, lookup x2, exported")
 		},
